@@ -214,6 +214,7 @@ let classify_m1 (st : mstate) (toks : string list) (model : string) (impl : stri
       if o = "save" && (has "kind=loaderr)" || has "kind=indexahead)") then Some "C05-split-commit"
       else if o = "save" && starts_with "fl(viol,op=save," impl && (has "kind=reopenerr," || has "kind=reopenmixture,") then Some "C05-split-commit"
       else if o = "lvfo" && (has "kind=mixture)" || has "kind=loaderr)") then Some "C05-split-rollback"
+      else if o = "prune" && has "kind=retrydiffers)" then Some "C05-split-prune"
       else None
   | [ "x"; "laudit" ] when starts_with "la(" impl
                           && (let has x = (try ignore (Str.search_forward (Str.regexp_string x) impl 0); true with Not_found -> false) in
